@@ -6,12 +6,12 @@
    ferret_sub_limbs is modelled in its repaired form (fixes/C16-sub-borrow.patch); C16_sub_unpatched_refuted
    is the defect of the code as found. *)
 From Coq Require Import ZArith List Bool.
-From FV Require Import Models.Bigint Proofs.BigintP Proofs.BigintMulP Proofs.BigintDecP Proofs.BigintPowP Proofs.BigintTextP.
+From FV Require Import Models.Bigint Proofs.BigintP Proofs.BigintMulP Proofs.BigintDecP Proofs.BigintPowP Proofs.BigintTextP
+  Proofs.BigintBitsP Proofs.BigintDivP Proofs.BigintShiftP Proofs.BigintAllP.
 Import ListNotations.
 Open Scope Z_scope.
 
-Definition operands (n : nat) (a b : list Z) : Prop :=
-  n <> O /\ length a = n /\ length b = n /\ limbs_ok a /\ limbs_ok b.
+(* operands n a b  :=  n <> 0 /\ length a = n /\ length b = n /\ limbs_ok a /\ limbs_ok b      (Proofs/BigintAllP.v) *)
 
 (* ---- the full statement of the property over the model *)
 Definition C16_full : Prop :=
@@ -24,7 +24,7 @@ Definition C16_full : Prop :=
   /\ svalue (sub_limbs a b) = wrapS m (svalue a - svalue b)
   /\ value (u_mul a b) = (value a * value b) mod m
   /\ svalue (s_mul a b) = wrapS m (svalue a * svalue b)
-  (* truncating division and remainder *)
+  (* truncating division and remainder (MIN / -1 wraps to MIN) *)
   /\ (value b <> 0 -> value (u_div a b) = value a / value b /\ value (u_mod a b) = value a mod value b)
   /\ (svalue b <> 0 -> svalue (s_div a b) = wrapS m (Z.quot (svalue a) (svalue b))
                       /\ svalue (s_mod a b) = wrapS m (Z.rem (svalue a) (svalue b)))
@@ -37,10 +37,11 @@ Definition C16_full : Prop :=
   /\ value (or_limbs a b) = Z.lor (value a) (value b)
   /\ value (xor_limbs a b) = Z.lxor (value a) (value b)
   /\ value (not_limbs a) = m - 1 - value a
-  (* shifts, every count k >= 0 (also k >= N) *)
+  (* shifts: every count k >= 0, also k >= N; counts <= 0 leave the operand unchanged *)
   /\ (forall k, 0 <= k -> value (shift_left_limbs a k) = (value a * 2 ^ k) mod m
                         /\ value (shift_right_limbs a k) = value a / 2 ^ k
                         /\ svalue (shift_right_signed_limbs a k) = svalue a / 2 ^ k)
+  /\ (forall k, k <= 0 -> shift_left_limbs a k = a /\ shift_right_limbs a k = a /\ shift_right_signed_limbs a k = a)
   (* exponentiation, exponent >= 0 *)
   /\ (exists r, u_pow a b = Some r /\ value r = (value a ^ value b) mod m)
   /\ (0 <= svalue b -> exists r, s_pow a b = Some r /\ svalue r = wrapS m (svalue a ^ svalue b))
@@ -48,9 +49,10 @@ Definition C16_full : Prop :=
   /\ (forall x, limb_ok x -> value (from_u64 n x) = x
                           /\ value (from_i64 n x) = (if x >=? 2 ^ 63 then x - B else x) mod m)
   /\ to_u64 a = value a mod B
-  (* decimal text: number -> text never overruns the 80 byte buffer and denotes the number; text -> number *)
-  /\ (exists s, u_to_string a = Some s /\ all_digits 10 s /\ num 10 s 0 = value a)
-  /\ (forall s, all_digits 10 s -> (exists c, In c s /\ c <> 95) ->
+  (* decimal text.  number -> text (the types that exist have at most four limbs): never overruns the 80 byte
+     buffer, digits only, denotes the number; text -> number for digit strings, with and without '-' *)
+  /\ ((n <= 4)%nat -> exists s, u_to_string a = Some s /\ all_digits 10 s /\ num 10 s 0 = value a)
+  /\ (forall s, all_digits 10 s -> has_digit s ->
         value (u_from_string n s) = (num 10 s 0) mod m
      /\ svalue (s_from_string n (45 :: s)) = wrapS m (- num 10 s 0)).
 
@@ -179,6 +181,58 @@ Theorem C16_decimal_roundtrip : forall a, limbs_ok a -> a <> [] -> (length a <= 
 Proof. exact decimal_roundtrip. Qed.
 Print Assumptions C16_decimal_roundtrip.
 
+(* ferret_div_mod_u_limbs through ferret_u*_div / ferret_u*_mod: floor quotient and remainder (divisor <> 0).
+   Loop invariant (Proofs/BigintDivP.v divmod_go_spec): after the bits above k, quot = Q * 2^k,
+   numer / 2^k = Q * denom + rem and rem < denom; the shifted remainder never overflows N bits. *)
+Theorem C16_divmod_u : forall n a b, operands n a b -> value b <> 0 ->
+  value (u_div a b) = value a / value b /\ value (u_mod a b) = value a mod value b.
+Proof. exact all_divmod_u. Qed.
+Print Assumptions C16_divmod_u.
+
+(* signed division truncates towards zero (Z.quot), wrapped: MIN / -1 = 2^(N-1) wraps to MIN *)
+Theorem C16_div_s : forall n a b, operands n a b -> svalue b <> 0 ->
+  svalue (s_div a b) = wrapS (modulus n) (Z.quot (svalue a) (svalue b)).
+Proof. exact all_div_s. Qed.
+Print Assumptions C16_div_s.
+
+(* signed remainder has the sign of the dividend (Z.rem) *)
+Theorem C16_mod_s : forall n a b, operands n a b -> svalue b <> 0 ->
+  svalue (s_mod a b) = wrapS (modulus n) (Z.rem (svalue a) (svalue b)).
+Proof. exact all_mod_s. Qed.
+Print Assumptions C16_mod_s.
+
+Theorem C16_min_div_minus_one : forall n a b, operands n a b ->
+  svalue a = - (modulus n / 2) -> svalue b = -1 ->
+  svalue (s_div a b) = - (modulus n / 2) /\ svalue (s_mod a b) = 0.
+Proof. exact min_div_m1. Qed.
+Print Assumptions C16_min_div_minus_one.
+
+(* shifts, every count: k <= 0 is the identity (as the code defines it), k >= N gives 0 (or -1 for sar of a
+   negative value) because the formulas below do *)
+Theorem C16_shl : forall a k, limbs_ok a ->
+  value (shift_left_limbs a k) = if k <=? 0 then value a else (value a * 2 ^ k) mod modulus (length a).
+Proof. exact all_shl. Qed.
+Print Assumptions C16_shl.
+
+Theorem C16_shr : forall a k, limbs_ok a ->
+  value (shift_right_limbs a k) = if k <=? 0 then value a else value a / 2 ^ k.
+Proof. exact all_shr. Qed.
+Print Assumptions C16_shr.
+
+(* arithmetic shift of the two's complement value: floor division by 2^k (repaired code: returns after the copy
+   for k <= 0, fixes/C16-shr-negative-count.patch) *)
+Theorem C16_sar : forall a k, limbs_ok a -> a <> [] ->
+  svalue (shift_right_signed_limbs a k) = if k <=? 0 then svalue a else svalue a / 2 ^ k.
+Proof. exact all_sar. Qed.
+Print Assumptions C16_sar.
+
+Theorem C16_bitwise : forall n a b, operands n a b ->
+  value (and_limbs a b) = Z.land (value a) (value b) /\
+  value (or_limbs a b) = Z.lor (value a) (value b) /\
+  value (xor_limbs a b) = Z.lxor (value a) (value b).
+Proof. exact all_bitwise. Qed.
+Print Assumptions C16_bitwise.
+
 (* text -> number, the part proved: the digit loop of ferret_parse_uint accumulates the denoted number modulo 2^N
    (any base, '_' skipped); sign, prefix and the number -> text direction are covered by correspondence only *)
 Theorem C16_parse_digits_partial : forall s base out any, all_digits base s ->
@@ -188,37 +242,13 @@ Proof.
 Qed.
 Print Assumptions C16_parse_digits_partial.
 
-(* what is proved of C16_full: + - * (both readings), negation, all comparisons, not, 64-bit conversions.
-   C16_pow, C16_to_decimal and C16_parse_digits_partial add exponentiation, number -> text and the digit loop of
-   text -> number.  Not proved (covered by the correspondence and the spec-side oracle only): div/mod, and/or/xor,
-   shifts, and text -> number beyond decimal digit strings with an optional '-' (prefixes 0x/0o/0b, '+', leading
-   white space, stopping at the first bad character). *)
-Theorem C16_proved_partial : forall n a b, operands n a b ->
-  let m := modulus n in
-     value (add_limbs a b) = (value a + value b) mod m
-  /\ svalue (add_limbs a b) = wrapS m (svalue a + svalue b)
-  /\ value (sub_limbs a b) = (value a - value b) mod m
-  /\ svalue (sub_limbs a b) = wrapS m (svalue a - svalue b)
-  /\ value (u_mul a b) = (value a * value b) mod m
-  /\ svalue (s_mul a b) = wrapS m (svalue a * svalue b)
-  /\ limbs_eqb a b = (value a =? value b) /\ limbs_eqb a b = (svalue a =? svalue b)
-  /\ u_lt a b = (value a <? value b) /\ u_gt a b = (value a >? value b)
-  /\ s_lt a b = (svalue a <? svalue b) /\ s_gt a b = (svalue a >? svalue b)
-  /\ value (not_limbs a) = m - 1 - value a
-  /\ (forall x, limb_ok x -> value (from_u64 n x) = x
-                          /\ value (from_i64 n x) = (if x >=? 2 ^ 63 then x - B else x) mod m)
-  /\ to_u64 a = value a mod B.
-Proof.
-  intros n a b H. pose proof H as (Hn & La & Lb & Ha & Hb). cbv zeta.
-  destruct (C16_add n a b H) as [A1 A2]. destruct (C16_sub n a b H) as [S1 S2].
-  destruct (C16_mul n a b H) as [M1 M2]. destruct (C16_cmp n a b H) as (C1 & C2 & C3 & C4 & C5 & C6).
-  repeat split; auto.
-  - rewrite <- La. apply not_limbs_value.
-  - apply from_u64_correct, Hn.
-  - apply from_i64_correct; auto.
-  - destruct (C16_conv64 n a 0 Hn La Ha) as (_ & _ & T); auto. unfold limb_ok. split; [apply Z.le_refl | apply B_pos].
-Qed.
-Print Assumptions C16_proved_partial.
+(* the full statement holds of the port: every operation the property names, all operands, every limb count.
+   (Outside it, and tied by correspondence only: text -> number beyond decimal digit strings with an optional '-':
+   prefixes 0x/0o/0b, '+', leading white space, stopping at the first bad character; division by zero and
+   negative exponents return 0.) *)
+Theorem C16_all : C16_full.
+Proof. exact full_holds. Qed.
+Print Assumptions C16_all.
 
 (* non-vacuity: concrete limb-boundary operands satisfy the hypotheses, and the carry / borrow really travels
    through an all-ones / all-zero interior limb *)
@@ -242,3 +272,25 @@ Proof.
   split; vm_compute; reflexivity.
 Qed.
 Print Assumptions C16_nonvacuous.
+
+(* non-vacuity of the division / shift theorems: the witness of the original defect (2^128 mod (2^128 - 2^64 + 1)),
+   MIN / -1, and shifts across a limb boundary *)
+Theorem C16_nonvacuous_div :
+  operands 4 [0; 0; 1; 0] [1; LMAX; 0; 0] /\ value [1; LMAX; 0; 0] <> 0 /\
+  u_mod [0; 0; 1; 0] [1; LMAX; 0; 0] = [LMAX; 0; 0; 0] /\
+  operands 2 [0; 2 ^ 63] [LMAX; LMAX] /\ svalue [0; 2 ^ 63] = - (modulus 2 / 2) /\ svalue [LMAX; LMAX] = -1 /\
+  s_div [0; 2 ^ 63] [LMAX; LMAX] = [0; 2 ^ 63] /\
+  shift_right_signed_limbs [0; 2 ^ 63] 127 = [LMAX; LMAX] /\
+  shift_left_limbs [LMAX; LMAX] 65 = [0; 2 ^ 64 - 2].
+Proof.
+  assert (O4 : operands 4 [0; 0; 1; 0] [1; LMAX; 0; 0]).
+  { unfold operands. split; [discriminate|]. split; [reflexivity|]. split; [reflexivity|].
+    split; apply limbs_okb_ok; vm_compute; reflexivity. }
+  assert (O2 : operands 2 [0; 2 ^ 63] [LMAX; LMAX]).
+  { unfold operands. split; [discriminate|]. split; [reflexivity|]. split; [reflexivity|].
+    split; apply limbs_okb_ok; vm_compute; reflexivity. }
+  split; [exact O4|]. split; [vm_compute; discriminate|]. split; [vm_compute; reflexivity|].
+  split; [exact O2|]. split; [vm_compute; reflexivity|]. split; [vm_compute; reflexivity|].
+  split; [vm_compute; reflexivity|]. split; vm_compute; reflexivity.
+Qed.
+Print Assumptions C16_nonvacuous_div.
